@@ -163,7 +163,8 @@ func main() {
 	diffPath := flag.String("diffreplay", "", "engine debugging: run the replay file concretely and symbolically and report the first instruction whose value differs under the model")
 	cpuprof := flag.String("cpuprofile", "", "write a CPU profile")
 	flag.Parse()
-	debug.SetGCPercent(200)
+	debug.SetGCPercent(100)
+	debug.SetMemoryLimit(9 << 30) // the sandbox kills the process beyond ~13 GB; make the collector work harder instead
 	if *cpuprof != "" {
 		f, _ := os.Create(*cpuprof)
 		delay, _ := time.ParseDuration(os.Getenv("VERIF_PROF_DELAY"))
